@@ -236,17 +236,28 @@ func c02Worker(w *W) {
 	log.Stdout = sink
 	ur := newRng(w.Spec.Seed, 424242+uint64(w.Spec.Shard))
 	universe := c02universe(ur)
+	// a quarter of the universe is registered later, one tag at a time between Refresh/Destroy cycles (registration is
+	// possible again after Destroy): a tag registered after earlier cycles must be routed like any other
+	late := append([]string{}, universe[len(universe)*3/4:]...)
+	ur.Shuffle(len(late), func(i, j int) { late[i], late[j] = late[j], late[i] })
+	isLate := map[string]bool{}
+	for _, t := range late {
+		isLate[t] = true
+	}
 	tags := map[string]*log.Tag{}
+	var all []string
 	for _, t := range universe {
-		tags[t] = log.RegisterTag(t)
+		if !isLate[t] {
+			tags[t] = log.RegisterTag(t)
+			all = append(all, t)
+		}
 	}
 	tags["_app_def"] = log.TagAppDef
 	tags["_biz_def"] = log.TagBizDef
-	all := append([]string{}, universe...)
 	all = append(all, "_app_def", "_biz_def")
 	sort.Strings(all)
 	if got := log.GetAllTags(); len(got) != len(all) {
-		w.Note(fmt.Sprintf("GetAllTags has %d names, harness registered %d (+2 built-in)", len(got), len(universe)))
+		w.Note(fmt.Sprintf("GetAllTags has %d names, harness registered %d (+2 built-in)", len(got), len(all)-2))
 	}
 	ctx := context.Background()
 	n := int(w.Spec.N)
@@ -262,6 +273,17 @@ func c02Worker(w *W) {
 	for ci := 0; ci < n; ci++ {
 		r := newRng(w.Spec.Seed, uint64(w.Spec.Shard)*1_000_003+uint64(ci)+9)
 		c := c02gen(r, universe)
+		if ci%5 == 2 && len(late) > 0 {
+			t := late[0]
+			late = late[1:]
+			if pv, _ := catch(func() { tags[t] = log.RegisterTag(t) }); pv != nil {
+				w.Violate("C02:late-registration-refused", fmt.Sprintf("RegisterTag(%q) after a Destroy panicked: %v", t, pv), map[string]any{"index": ci})
+			} else {
+				all = append(all, t)
+				sort.Strings(all)
+				w.Count("tags_registered_between_cycles", 1)
+			}
+		}
 		if only >= 0 && ci != only {
 			continue
 		}
